@@ -96,7 +96,7 @@ var props = map[string]propCfg{
 		Assumptions: commonAssumptions,
 	},
 	"C05": {
-		Require:      []string{"decodes_compared", "displays_checked", "rejections_observed", "raw_frame_truncations_swept", "reused_buffer_decodes", "kept_results_rechecked"},
+		Require:      []string{"decodes_compared", "displays_checked", "rejections_observed", "raw_frame_truncations_swept", "reused_buffer_decodes", "kept_results_rechecked", "concurrent_displays_checked"},
 		QuickBatches: 8, ThoroughBatches: 64, Parallel: 16, Level: "exploration", Floor: 500, MayBeExhaustive: true,
 		Rule:        "enumerated: every boundary coordinate (-2^37, -2^37+1, +-1, 0, +-9999, +-10000, +-10001, every power of two +-1, 2^37-1) on each axis for both types; boundary antenna heights; EVERY truncation length 0..full-1 (must be an error, never a panic); EVERY other number in the 12-bit type field (must be an error). Random: 1005/1006 descriptions with full-range station id, ITRF year, reserved groups, coordinates (uniform 38-bit, realistic ECEF, boundary) and height, with and without trailing bytes. Each is encoded by the independent encoder and decoded by type1005/type1006 GetMessage and through handler.GetMessage + Message.String at both log levels; fields compared exactly; displayed coordinates/height compared with pure-integer formatting of value*0.0001 to four decimals. Non-trivial: all three coordinates non-zero, or a boundary/truncation/wrong-type case. Distinct by hash of the case.",
 		Assumptions: commonAssumptions,
